@@ -255,10 +255,11 @@ func init() {
 			modPath + "/css.minifyNumberPercentage", modPath + "/css.(*cssMinifier).minifyDimension",
 		},
 		Custom:  []string{"partial"},
-		Partial: []string{modPath + "/css.(*cssMinifier).minifyProperty"},
+		Partial: []string{modPath + "/css.(*cssMinifier).minifyProperty", modPath + "/css.(*cssMinifier).minifyGrammar"},
 		Notes: []string{
 			"value-rewriting kernels of the real css package under full contract (all inputs, byte-level postconditions whose meaning is stated next to them): minifyColor on hash colours (alpha pair dropped only when both nibbles are f, '#0000' only when both are 0, 3/4-digit form only when both nibbles of every channel are equal, otherwise the lower-cased input; name lookups are the C17 table lemmas); minifyNumberPercentage (d0% -> .d, .0d -> d%, .00x -> .x%, anything else unchanged); minifyLengthPercentage (only a value starting with 0 loses its unit and becomes that 0); Token.IsZero; minifyDimension (split at the last non-letter, unit lower-cased, exactly the number bytes handed once to Number - Decimal under KeepCSS2 - with the configured precision, result = that number followed by the unit, proved through the overlapping append)",
 			"site assertions in the real minifyProperty (partial contract): the flex rewrites that inspect only the first byte of <flex-grow>/<flex-shrink> are reached only when those numbers are single characters",
+			"further site assertions: a zero box-shadow length is dropped only from the end of the shadow's lengths (blur before a non-zero spread stays); a custom property's value is written trimmed only - nothing but the parser's accessor runs between the colon and the value (no in-place whitespace rewriting of strings/urls inside it)",
 			"C08 decides what Number/Decimal may do to the number bytes; C17 decides the colour tables entry by entry",
 			"not decided: the grammar walk (minifyGrammar/minifySelectors), every other shorthand rewrite of minifyProperty (margin/padding/border/background/font/box-shadow/..., including the background-position deviation quoted in the property), rgb()/hsl() conversion (floating point), unicode-range, url() and string handling, custom properties; 'already minified' is a premise of the kernels that their callers are assumed to establish",
 			"observation (not a listed finding): minifyDimension returns the unit as a slice of the input that the final append may overwrite when the number shrinks by fewer bytes than the unit is long (e.g. the unit of -0km reads back as mm); the only caller uses it for the optional-zero-unit lookup, where this can only drop the unit of a zero with an invalid two-letter unit ending in m",
@@ -275,10 +276,13 @@ func init() {
 		Partial: []string{
 			modPath + "/svg.(*PathData).copyInstruction", modPath + "/svg.(*PathData).shortenCurPosInstruction",
 			modPath + "/svg.(*PathData).shortenAltPosInstruction", modPath + "/svg.(*Minifier).Minify",
+			modPath + "/svg.skipTag", modPath + "/svg.(*Minifier).shortenDimension",
 		},
 		Notes: []string{
 			"separator elision under full contract (copyNumber / copyFlag, all inputs): the buffer only grows; a number is written without a separator only when re-lexing cannot fuse it with what precedes (previous token is a command or flag, or the number starts with '-', or it starts with '.' and the previous number already has a '.' or an exponent); a lone 0 after a fraction becomes .0; the trailing 00 -> e2 rewrite happens only for integers (F15 found and fixed: 1e100 became 1e1e2); prevDigitIsInt is exactly 'the written number has no dot or exponent'; flags are one character, preceded by a separator unless a flag precedes",
 			"path cursor state machine (site assertions in the real copyInstruction, partial contract): when the command about to be written is not a cubic (quadratic) curve, the remembered control point p.cx/p.cy (p.qx/p.qy) is NaN, so a following smooth command reflects only an EMITTED curve of its family; rewrites never change a command's relativity; the state taken over is that of the chosen alternative; after closepath the state demands a command letter (F16 found and fixed: M2 2h3zh4 became M2 2h3z 4); in shortenCur/AltPosInstruction the command letter is elided only after the same letter or as implicit lineto after moveto, never after closepath",
+			"further path-state assertions: closepath forgets the remembered control points (F27 found and fixed); a zero-length line is dropped only when no curve state precedes it (F26 found and fixed); open known finding F28: a degenerate curve is rewritten to a line also when its last control point is the START point, which changes a following smooth curve (pinned by the test suite)",
+			"skipTag (dropping metadata / foreign elements / empty defs): per-iteration contract - one token per step, a start tag opens one level, an end tag or a void close closes one, other tokens keep the depth, depth never negative; shortenDimension: the unit is dropped only for the number 0 or for px (trace of the single Number call, lengths)",
 			"floats are an uninterpreted sort with NaN-ness as the only interpreted fact (math.NaN/IsNaN): coordinate arithmetic, the absolute/relative alternative's VALUE, tolerance and degenerate-curve tests are NOT decided",
 			"svg.TokenBuffer under full contract (same data-structure contract as xml: Peek consumes nothing, Shift hands out the first token of the view)",
 			"svg.(*Minifier).Minify (partial): the option struct is never written (frame.store); an attribute is dropped for its namespace prefix only if the prefix is not xml:, not xlink: and it is not the xmlns:xlink declaration (F17 found and fixed: xlink:href was dropped); embedded style dispatch obligations of C11; end-of-input obligations of C14",
@@ -306,10 +310,16 @@ func init() {
 		ID:       "C01",
 		Patterns: []string{"./js"},
 		Custom:   []string{"partial", "jstables"},
-		Partial:  []string{modPath + "/js.isBooleanExpr", modPath + "/js.endsInIf"},
+		Partial: []string{modPath + "/js.isBooleanExpr", modPath + "/js.endsInIf", modPath + "/js.isFalsy", modPath + "/js.mergeBinaryExpr",
+			modPath + "/js.(*jsMinifier).minifyParams", modPath + "/js.(*jsMinifier).minifyExpr",
+			modPath + "/js.isUndefined", modPath + "/js.isUndefinedOrNull", modPath + "/js.toNullishExpr"},
 		Notes: []string{
 			"operator table lemmas (jstables, exhaustive ground evaluation): every entry of binaryOpPrecMap / binaryLeftPrecMap / binaryRightPrecMap / unaryOpPrecMap / unaryPrecMap of the real js/util.go equals the level the ECMAScript expression grammar gives that operator (reference/js-operators.json), no operator of the grammar is missing (a missing entry reads as the lowest level - F18 found and fixed: the logical assignment operators were missing and a&&=(b,c) lost its parentheses), nothing extra, and the dependency's OpPrec levels are ordered by binding strength",
 			"isBooleanExpr is SOUND (answers true only for expressions that evaluate to a Boolean) and endsInIf is COMPLETE (answers true for every statement whose printed form ends with an else-less if) - postconditions on the real recursive functions, proved branch by branch from ECMAScript facts that are assumed at the site where the code inspects the corresponding node form (`at ... assume [ES ...]`, listed under assumptions); the recursive calls are used through the function's own contract",
+			"truthiness of literals (isFalsy, which guards the folding of constant conditions): site assertions at the returns that commit to an answer, written from ToBoolean (ES 7.1.2) and the numeric literal grammar - a string literal is falsy exactly when nothing is between its quotes; a numeric literal exactly when every mantissa digit is zero, where for 0x/0b/0o literals every character after the prefix is a digit (b and e are hexadecimal digits) - with a loop invariant over the scanned prefix and the dependency's token shapes as stated A-lexer assumptions (F19 found and fixed: \"\" was truthy, 0xb and 0xe0 were zero)",
+			"rewrite guards as site assertions / step clauses in the real code, each with the ECMAScript law that justifies the rewrite: string literals are merged only across additions (F20 found and fixed: a-\"b\"+\"c\"); an unused trailing parameter is dropped only if its default has no side effects (F22 found and fixed); a member access on a digits-only numeric literal gets a second dot and any other literal form exactly one (F21 found and fixed: (5.0).toString() printed 5.toString())",
+			"isUndefined / isUndefinedOrNull are sound for the values they name, and the optional-chain rewrite cond ? ALT : a.b -> a?.b is performed only when ALT evaluates to undefined (a?.b yields undefined, not null, for a nullish a); grouping scan (generator-decided dataflow fact): wherever js.BinaryExpr{OP, L, R} is constructed and an operand comes from groupExpr(e, P), P is binaryLeft/RightPrecMap[OP] for the same OP",
+			"open known findings F23-F25 (pinned by the test suite, so not repairable here): isNaN(x) -> x!=x, Math.trunc(x) -> x|0 and Math.abs(x) -> x<0?-x:x are performed for ANY variable although each is value-preserving only for particular argument types; the assertions that state the needed type fact fail and are reported as KNOWN-FINDING lines",
 			"version gates (C16) and renaming (C02) are separate properties; their contracts are not repeated here",
 			"not decided: observational equivalence of whole programs - it needs an operational semantics of ECMAScript and an induction over the printer and every rewrite (statement merging, ASI, hoisting, optimizeCondExpr/optimizeUnaryExpr, isTruthy/isFalsy, hasSideEffects, string/number/template/regexp literal rewriting); the parenthesisation logic that USES the tables (groupExpr and the printer) is not verified, only the tables; A-parser: AST nodes are non-nil",
 		},
